@@ -231,7 +231,10 @@ impl NameCompressor {
             }
             entry = &entry[..entry.len() - first.as_wire().len()];
 
-            for label in name_labels.clone() {
+            // Consume every further label that also matches, so that
+            // 'name_labels' ends up holding exactly the unmatched labels.
+            let mut lookahead = name_labels.clone();
+            while let Some(label) = lookahead.next() {
                 if entry.len() < label.as_wire().len()
                     || !entry[entry.len() - label.as_wire().len()..]
                         .eq_ignore_ascii_case(label.as_wire())
@@ -239,6 +242,7 @@ impl NameCompressor {
                     break;
                 }
                 entry = &entry[..entry.len() - label.as_wire().len()];
+                name_labels = lookahead.clone();
             }
 
             // Suffixes from 'entry' that were also in 'name' have been
